@@ -61,6 +61,11 @@ def check(c):
     L = Ls[-1]
     Mw = pmd(X, Y, L @ L.T)      # free space: whitened Euclidean
     expect(np.allclose(Mw[0], euclidean_distances(X @ L, Y @ L), atol=1e-8 * max(1.0, Mw.max())), 'post[C15]:precision-LLt-equals-euclidean-distance-between-L-whitened-points')
+    # the same law in other units: data larger by a factor s, precision entries smaller by s^2 (correlated precisions with entries of order 1e-8 .. 1e-14)
+    Lc = np.tril(rng.normal(size=(d, d))) + 2 * np.eye(d); sc_ = 10.0 ** int(rng.integers(3, 8))
+    Mu = pmd(X * sc_, Y * sc_, (Lc @ Lc.T) / sc_ ** 2)
+    refu = euclidean_distances(X @ Lc, Y @ Lc)
+    expect(np.allclose(Mu[0], refu, rtol=1e-6, atol=1e-7 * max(1.0, refu.max())), 'post[C15]:precision-LLt-equals-euclidean-distance-between-L-whitened-points', f"data scaled by {sc_}, precision by {sc_ ** -2}: max dev {np.max(np.abs(Mu[0] - refu))}")
     expect(np.allclose(pmd(X, Y, P, cell_length=cell, squared=True), refm ** 2, atol=1e-7 * max(1.0, (refm ** 2).max())), 'post[C15]:mahalanobis-squared=True-returns-the-square')
     try:
         pmd(X, Y, P, cell_length=np.ones(d + 1)); expect(False, 'reject[C15]:mismatched-cell-dimension-is-rejected[mahalanobis]')
